@@ -82,7 +82,7 @@ Theorem C04_port_pointer_and_loc : forall cb tid m obj0 old st i name sub pe,
   loc st = Some old ->
   step_loc cb tid m obj0 old st (i, name, sub, pe) =
   restore old (set_obj (cb i m
-    {| loc := Some (old ++ (if mem 35 name then firstn (length m - length pe) m else upto_colon name));
+    {| loc := Some (old ++ (if is_pattern name then firstn (length m - length pe) m else upto_colon name));
        matches := if sub then matches st else matches st + 1;
        obj := obj st; dport := Some (tid, i); log := log st |}) obj0).
 Proof. exact callback_sees. Qed.
@@ -222,9 +222,10 @@ Theorem C04_port_pointer : forall t m args o,
   (root_ok t m -> Forall ev_port_ok (log (dispatch t m args true o))).
 Proof. exact tree_port_pointer. Qed.
 
-(* names of the documented form (literal text and #N, ANY number of address
-   components - "a#2/b#3/", "x/y/", "a#2/k#2:i"; sub-tree ports with a trailing
-   '/', leaves without): every callback's loc is a prefix of the full address
+(* names of the documented form (literal text, #N and alternatives {a,b,..}
+   that hold no '/' and no ':', ANY number of address components - "a#2/b#3/",
+   "x/y/", "a#2/k#2:i", "{on,off}/", "p{q,r}#2:i"; sub-tree ports with a
+   trailing '/', leaves without): every callback's loc is a prefix of the full address
    "/" ++ address, a leaf's loc IS the full address *)
 Theorem C04_loc_full_address : forall t m args o,
   root_ok t m -> names_ok t -> addr_ok (strip m) ->
@@ -284,12 +285,12 @@ Theorem C04_no_error : forall t m args o,
   (root_ok t m -> ~ In EvError (log (dispatch t m args true o))).
 Proof. exact tree_no_error. Qed.
 
-(* tables with a '#' name (or a multi-component literal name) are never
+(* tables with a '#' or '{' name (or a multi-component literal name) are never
    hashed; an unhashed table is served by the same scan with and without
    buffer, whatever its names are, followed in both runs by the default
    handler iff there is one and no port matched (after_scan) *)
 Theorem C04_unhashed_tables : forall T,
-  (exists p, In p (t_ports T) /\ (mem 35 (fst p) = true \/ inner_slash (fst p) = true)) ->
+  (exists p, In p (t_ports T) /\ (is_pattern (fst p) = true \/ inner_slash (fst p) = true)) ->
   tables_of T = None.
 Proof. exact unhashed_tables. Qed.
 
@@ -307,9 +308,11 @@ Proof. exact unhashed_same_calls. Qed.
 (* the recursion contract (SNIP of the rRecur*Cb callbacks after the commit
    "fix: the recursion callbacks ... skipped one component") for a sub-tree
    name of any number of components: the table below receives exactly what
-   follows the text the name matched; that text is what went into loc *)
+   follows the text the name matched; that text is what went into loc.
+   Names with alternatives included ("{on,off}/", "a#2{x,y}/"): alts_plain
+   asks only that an alternative holds no '/' and no ':' *)
 Theorem C04_snip_strips_matched_name : forall p m pe,
-  wf_pat p -> no_alt p -> subtree p = true -> path_spec p m pe ->
+  wf_pat p -> alts_plain p -> subtree p = true -> path_spec p m pe ->
   snipk (render p) m = pe /\ m = app_of (render p) m pe ++ pe.
 Proof. exact snip_strips_matched_name. Qed.
 
@@ -380,3 +383,59 @@ Theorem C04_reused_buffer_nonvacuous :
       (rev (log (dispatch_reused root [47;97;98;47;120;121] [] [115;99;114;97;116;99;104] 5 1)))
   = [Some [47;97;98;47]; Some [47;97;98;47;120;121]].
 Proof. exact dispatch_reused_nonvacuous. Qed.
+
+(* ---- port names of the full documented pattern form: alternatives {a,b,..} ---------
+   The tree theorems above never restricted names (spec_events is stated with C05's
+   matcher, which handles alternatives); C04_loc_full_address and
+   C04_snip_strips_matched_name hold for names_ok / alts_plain names, i.e. with
+   alternatives that hold no '/' and no ':'.  What did not hold for the pinned code: *)
+
+(* generate_minimal_hash looked for '#' only: { {ab,cd}x, ef, gh } got a perfect hash,
+   and the hashed lookup compares the message with the TEXT of the name: /abx reaches
+   {ab,cd}x without a location buffer and nothing with one; /{ab,cd}x reaches it with a
+   buffer only; and the linear scan appended the name's text: in { {ab,cd}x, e#2 } the
+   callback behind /cdx saw the loc "/{ab,cd}x" *)
+Theorem C04_alternatives_refuted :
+  seen_noalt tab_alt_hashed [47; 97; 98; 120] false = [(0, None)] /\
+  seen_noalt tab_alt_hashed [47; 97; 98; 120] true = [] /\
+  seen_noalt tab_alt_hashed [47; 123; 97; 98; 44; 99; 100; 125; 120] false = [] /\
+  seen_noalt tab_alt_hashed [47; 123; 97; 98; 44; 99; 100; 125; 120] true =
+    [(0, Some [47; 123; 97; 98; 44; 99; 100; 125; 120])] /\
+  seen_noalt tab_alt_lin [47; 99; 100; 120] true = [(0, Some [47; 123; 97; 98; 44; 99; 100; 125; 120])].
+Proof. exact alt_names_refuted. Qed.
+
+(* repaired (two fix: commits): a table with a '{' name is never hashed, the loc text of
+   such a name is the matched part of the message *)
+Theorem C04_alternatives_repaired :
+  seen_new tab_alt_hashed [47; 97; 98; 120] false = [(0, None)] /\
+  seen_new tab_alt_hashed [47; 97; 98; 120] true = [(0, Some [47; 97; 98; 120])] /\
+  seen_new tab_alt_hashed [47; 123; 97; 98; 44; 99; 100; 125; 120] false = [] /\
+  seen_new tab_alt_hashed [47; 123; 97; 98; 44; 99; 100; 125; 120] true = [] /\
+  seen_new tab_alt_lin [47; 99; 100; 120] true = [(0, Some [47; 99; 100; 120])] /\
+  tables_of tab_alt_hashed = None.
+Proof. exact alt_names_repaired. Qed.
+
+(* { {on,off}/ -> { x, y:i }, p{q,r}#2:i } satisfies the hypotheses of the tree theorems
+   (root_ok, names_ok, an addressed path); /off/y (types "i") runs the chain of two
+   callbacks with loc "/off/" and "/off/y", /pr1 runs the leaf with loc "/pr1"; the same
+   callbacks without a location buffer *)
+Theorem C04_alternatives_nonvacuous :
+  (root_ok tree_alt msg_alt /\ root_ok tree_alt msg_alt2) /\
+  (names_ok tree_alt /\ addr_ok (strip msg_alt) /\ addr_ok (strip msg_alt2)) /\
+  (addressed [0%nat; 1%nat] tree_alt (strip msg_alt) [105] /\
+   addressed [1%nat] tree_alt (strip msg_alt2) [105]) /\
+  dispatch tree_alt msg_alt [105] true 1 =
+  {| loc := Some [47]; matches := 1; obj := 1; dport := Some (1, 1);
+     log := [Ev 1 1 [121] 132 (Some [47; 111; 102; 102; 47; 121]) (Some (1, 1)) true;
+             Ev 0 0 [111; 102; 102; 47; 121] 1 (Some [47; 111; 102; 102; 47]) (Some (0, 0)) false] |} /\
+  dispatch tree_alt msg_alt [105] false 1 =
+  {| loc := None; matches := 0; obj := 1; dport := Some (1, 1);
+     log := [Ev 1 1 [121] 132 None (Some (1, 1)) true;
+             Ev 0 0 [111; 102; 102; 47; 121] 1 None (Some (0, 0)) false] |} /\
+  dispatch tree_alt msg_alt2 [105] true 1 =
+  {| loc := Some [47]; matches := 1; obj := 1; dport := Some (0, 1);
+     log := [Ev 0 1 [112; 114; 49] 1 (Some [47; 112; 114; 49]) (Some (0, 1)) true] |} /\
+  dispatch tree_alt msg_alt2 [105] false 1 =
+  {| loc := None; matches := 0; obj := 1; dport := Some (0, 1);
+     log := [Ev 0 1 [112; 114; 49] 1 None (Some (0, 1)) true] |}.
+Proof. exact (conj tree_alt_ok (conj tree_alt_names (conj tree_alt_addressed tree_alt_run))). Qed.
